@@ -1,18 +1,24 @@
 package main
 
 import (
-	"strings"
+	"bytes"
 	"encoding/json"
 	"fmt"
 	"math/big"
 	"math/rand/v2"
+	"strings"
+	"sync"
 
 	"github.com/onflow/crypto"
+	"github.com/onflow/crypto/hash"
 )
 
 type c05In struct {
-	Kind  string `json:"kind"` // sk | pk | sig | pkzcash
-	Bytes string `json:"bytes"`
+	Kind  string `json:"kind"` // sk | pk | sig | pkzcash | produced
+	Bytes string `json:"bytes"` // the byte string; for "produced": the seed of the recipe
+	// "produced": an object the package produces (route named here) must encode to bytes that decode
+	// back to an Equal object; the encoding then goes through the same Coq oracles as a crafted string
+	Recipe string `json:"recipe,omitempty"`
 }
 
 var (
@@ -28,7 +34,7 @@ func init() {
 		PropCheck: "C05AllCorr.prop_bad_ids",
 		Gen:       c05GenAll,
 		Run:       c05RunAll,
-		Rule:      "structured byte strings for the BLS private-key, public-key and signature decoders (valid encodings, all flag combinations, coordinates 0,1,p-1,p,p+1,2^381-1, non-residue x, on-curve points outside the subgroup, infinity with a stray byte at each position, single-bit flips, scalars 0,1,r-1,r,r+1,2^256-1, lengths 0..200); plus the ECDSA decoders of both curves: raw and X9.62-compressed public keys (valid, other root, off-curve, all 256 prefix bytes, x or y >= p, small x, lengths 0..70 incl. SEC1 uncompressed/hybrid forms given to the compressed decoder) and private keys (0, 1, n-1, n, n+1, leading zeros, lengths); non-trivial = any case whose length is the decoder's expected length; distinct by (decoder, bytes)",
+		Rule:      "structured byte strings for the BLS private-key, public-key and signature decoders (valid encodings, all flag combinations, coordinates 0,1,p-1,p,p+1,2^381-1, non-residue x, on-curve points outside the subgroup, infinity with a stray byte at each position, single-bit flips, scalars 0,1,r-1,r,r+1,2^256-1, lengths 0..200); plus the ECDSA decoders of both curves: raw and X9.62-compressed public keys (valid, other root, off-curve, all 256 prefix bytes, x or y >= p, small x, lengths 0..70 incl. SEC1 uncompressed/hybrid forms given to the compressed decoder) and private keys (0, 1, n-1, n, n+1, leading zeros, lengths); scalars with zero low limbs (2^64, 2^128, 2^192, r +- 2^64), both F_p^2 halves out of range; DecodePublicKey and DecodePublicKeyCompressed called independently on every string (same verdict, error class, Equal keys); every signature string also taken through every place that parses a signature - AggregateBLSSignatures at the first / middle / last position, twice, after the identity; stateless reconstruction at each share position; TrustedAdd + ThresholdSignature (twice), VerifyShare, VerifyAndAdd, Verify, VerifyBLSSignatureOneMessage / ManyMessages, batch verification between two genuine signatures, SPOCKVerify(AgainstData), BLSVerifyPOP, VerifyThresholdSignature, IsBLSSignatureIdentity - which must accept exactly when the plain parser does, with errInvalidSignature / (false, nil) otherwise; objects produced by every constructor (generated, public key of a decoded / aggregated private key, aggregated, cancelling aggregate = identity, removed-from, removed-all, identity constant, threshold key shares and group key, Sign, PoP, SPoCK proof, aggregated and cancelling signatures, stateless and stateful threshold signature, BLSInvalidSignature) encode to bytes that decode to an Equal object and are then judged like any other string; cases dealt round-robin over the shards; non-trivial = any case whose length is the decoder's expected length; distinct by (decoder, bytes)",
 		Shard:     12,
 	})
 }
@@ -62,7 +68,7 @@ func blsSkFromInt(k *big.Int) crypto.PrivateKey {
 func c05Gen(tier string, r *rand.Rand) []Case {
 	var cs []Case
 	add := func(fam, kind string, b []byte) {
-		cs = append(cs, mkcase(fam, c05In{kind, hx(b)}))
+		cs = append(cs, mkcase(fam, c05In{Kind: kind, Bytes: hx(b)}))
 	}
 	thorough := tier == "thorough"
 	one := big.NewInt(1)
@@ -71,6 +77,12 @@ func c05Gen(tier string, r *rand.Rand) []Case {
 	for _, v := range []*big.Int{big.NewInt(0), one, big.NewInt(2), new(big.Int).Sub(blsR, one), blsR, new(big.Int).Add(blsR, one), new(big.Int).Sub(two256, one), new(big.Int).Lsh(one, 255), new(big.Int).Lsh(one, 248)} {
 		add("sk-edge", "sk", fixed(v, 32))
 	}
+	// scalars with zero low limbs (a zero test that looks at one limb only) and just below r in the top limb
+	for _, sh := range []uint{64, 128, 192} {
+		add("sk-edge", "sk", fixed(new(big.Int).Lsh(one, sh), 32))
+	}
+	add("sk-edge", "sk", fixed(new(big.Int).Sub(blsR, new(big.Int).Lsh(one, 64)), 32))
+	add("sk-edge", "sk", fixed(new(big.Int).Add(blsR, new(big.Int).Lsh(one, 64)), 32))
 	for i := 0; i < 6; i++ {
 		add("sk-random", "sk", rbytes(r, 32))
 		add("sk-valid", "sk", blsSk(r).Encode())
@@ -189,6 +201,12 @@ func c05Gen(tier string, r *rand.Rand) []Case {
 			add("pk-xedge", "pk", b)
 		}
 	}
+	// both halves out of range / p+1 in either half
+	for _, xy := range [][2]*big.Int{{blsP, blsP}, {new(big.Int).Add(blsP, one), big.NewInt(0)}, {big.NewInt(0), new(big.Int).Add(blsP, one)}} {
+		b := append(fixed(xy[0], 48), fixed(xy[1], 48)...)
+		b[0] = (b[0] & 0x1F) | 0x80
+		add("pk-xedge", "pk", b)
+	}
 	nrp := 4
 	if thorough {
 		nrp = 40
@@ -231,12 +249,27 @@ func c05Gen(tier string, r *rand.Rand) []Case {
 	for _, l := range []int{0, 1, 48, 95, 97, 192} {
 		add("pk-length", "pk", rbytes(r, l))
 	}
+	// ---- objects the package produces, from every constructor: encode, decode, Equal ----
+	for _, rc := range c05Recipes {
+		reps := 1
+		if thorough {
+			reps = 4
+		}
+		for k := 0; k < reps; k++ {
+			cs = append(cs, mkcase("produced-"+rc, c05In{Kind: "produced", Bytes: hx(rbytes(r, 32)), Recipe: rc}))
+		}
+	}
+	for _, curve := range []string{"p256", "k1"} {
+		for _, comp := range []bool{false, true} {
+			cs = append(cs, mkcase("produced-ecdsa-generated", c05In{Kind: "produced-ecdsa", Bytes: hx(rbytes(r, 32+r.IntN(100))), Recipe: fmt.Sprintf("%s:%v", curve, comp)}))
+		}
+	}
 	// ---- probe against the cited ZCash format: the standard G2 generator, imaginary part first ----
 	gen := unhx("93e02b6052719f607dacd3a088274f65596bd0d09920b61ab5da61bbdc7f5049334cf11213945d57e5ac7d055d042b7e024aa2b2f08f0a91260805272dc51051c6e47ad4fa403b02b4510b647ae3d1770bac0326a805bbefd48056c8c121bdb8")
-	c := mkcase("pk-zcash-generator", c05In{"pkzcash", hx(gen)})
+	c := mkcase("pk-zcash-generator", c05In{Kind: "pkzcash", Bytes: hx(gen)})
 	c.Finding = "g2-fp2-order"
 	cs = append(cs, c)
-	c2 := mkcase("pk-zcash-generator", c05In{"pkzcash", hx(blsSkFromInt(one).PublicKey().Encode())})
+	c2 := mkcase("pk-zcash-generator", c05In{Kind: "pkzcash", Bytes: hx(blsSkFromInt(one).PublicKey().Encode())})
 	c2.Finding = "g2-fp2-order"
 	cs = append(cs, c2)
 	return cs
@@ -247,11 +280,29 @@ func c05Run(c Case) (Result, error) {
 	if err := json.Unmarshal(c.Input, &in); err != nil {
 		return Result{}, err
 	}
+	if in.Kind == "produced" {
+		var kind, complaint string
+		var enc []byte
+		if p, m := catch(func() {
+			var obj any
+			kind, obj = c05Produce(in.Recipe, unhx(in.Bytes))
+			enc, complaint = c05RoundTrip(kind, obj)
+		}); p {
+			return Result{}, implViolation("producing / re-decoding an object (%s) panicked: %s", in.Recipe, m)
+		}
+		if complaint != "" {
+			return Result{}, implViolation("%s: %s (encoding %x)", in.Recipe, complaint, enc)
+		}
+		// from here on the encoding is judged like any other byte string (it must be in the acceptance set
+		// of the reference format, except the documented invalid constant)
+		in = c05In{Kind: kind, Bytes: hx(enc), Recipe: in.Recipe}
+	}
 	b := unhx(in.Bytes)
 	ok := false
 	var reenc []byte
 	var kind string
 	expected := 0
+	routeComplaint := ""
 	panicked, pmsg := catch(func() {
 		switch in.Kind {
 		case "sk":
@@ -268,11 +319,17 @@ func c05Run(c Case) (Result, error) {
 				kind = "KPkZcashProbe"
 			}
 			pk, err := crypto.DecodePublicKey(crypto.BLSBLS12381, b)
+			// the two decoders are called independently: same verdict, same error class, Equal keys
+			pk2, err2 := crypto.DecodePublicKeyCompressed(crypto.BLSBLS12381, append([]byte{}, b...))
+			if (err == nil) != (err2 == nil) {
+				routeComplaint = fmt.Sprintf("DecodePublicKey accepted=%v but DecodePublicKeyCompressed accepted=%v", err == nil, err2 == nil)
+			} else if err2 != nil && !crypto.IsInvalidInputsError(err2) {
+				routeComplaint = "DecodePublicKeyCompressed: unexpected error class: " + err2.Error()
+			}
 			if err == nil {
 				ok, reenc = true, pk.Encode()
-				pk2, err2 := crypto.DecodePublicKeyCompressed(crypto.BLSBLS12381, b)
-				if err2 != nil || !pk.Equals(pk2) {
-					panic("DecodePublicKeyCompressed disagrees with DecodePublicKey")
+				if err2 == nil && (!pk.Equals(pk2) || !pk2.Equals(pk) || !bytes.Equal(pk2.Encode(), reenc) || !bytes.Equal(pk.EncodeCompressed(), reenc)) {
+					routeComplaint = "DecodePublicKeyCompressed disagrees with DecodePublicKey"
 				}
 			} else if !crypto.IsInvalidInputsError(err) {
 				panic("unexpected error class: " + err.Error())
@@ -282,6 +339,11 @@ func c05Run(c Case) (Result, error) {
 			out, err := crypto.AggregateBLSSignatures([]crypto.Signature{b})
 			if err == nil {
 				ok, reenc = true, out
+			} else if !crypto.IsInvalidSignatureError(err) {
+				routeComplaint = "AggregateBLSSignatures: error is not errInvalidSignature: " + err.Error()
+			}
+			if routeComplaint == "" {
+				routeComplaint = c05SigRoutes(b, ok)
 			}
 		}
 	})
@@ -290,8 +352,14 @@ func c05Run(c Case) (Result, error) {
 		return Result{Coq: fmt.Sprintf("mkCase %s %s true %s", kindOr(kind, in.Kind), cqs(in.Bytes), cqs("ff")), Key: string(c.Input), Nontrivial: true,
 			Obs: map[string]any{"panic": pmsg}}, nil
 	}
+	if routeComplaint != "" {
+		return Result{}, implViolation("%s on input %s", routeComplaint, in.Bytes)
+	}
+	if in.Recipe != "" && in.Recipe != "sig-invalid-const" && !ok {
+		return Result{}, implViolation("%s: the produced encoding %s is rejected by the decoder", in.Recipe, in.Bytes)
+	}
 	term := fmt.Sprintf("mkCase %s %s %s %s", kind, cqs(in.Bytes), cqbool(ok), cqs(hx(reenc)))
-	return Result{Coq: term, Key: string(c.Input), Nontrivial: len(b) == expected, Obs: map[string]any{"ok": ok, "reenc": hx(reenc)}}, nil
+	return Result{Coq: term, Key: string(c.Input), Nontrivial: len(b) == expected, Obs: map[string]any{"ok": ok, "reenc": hx(reenc), "bytes": in.Bytes}}, nil
 }
 
 func kindOr(k, raw string) string {
@@ -324,7 +392,19 @@ func c05GenAll(tier string, r *rand.Rand) []Case {
 			cs = append(cs, c)
 		}
 	}
-	return cs
+	// the BLS decodings (square roots, subgroup checks) are the expensive ones for the Coq evaluator and
+	// are contiguous in generation order: deal the cases round-robin over the shards
+	const shard = 12
+	nsh := (len(cs) + shard - 1) / shard
+	buckets := make([][]Case, nsh)
+	for i, c := range cs {
+		buckets[i%nsh] = append(buckets[i%nsh], c)
+	}
+	var out []Case
+	for _, b := range buckets {
+		out = append(out, b...)
+	}
+	return out
 }
 
 func c05RunAll(c Case) (Result, error) {
@@ -350,10 +430,366 @@ func c05RunAll(c Case) (Result, error) {
 		res.Coq = "AEcdsaPriv (" + t + ")"
 		return res, nil
 	}
+	if c.Kind == "produced-ecdsa-generated" {
+		return c05EcdsaProduced(c)
+	}
 	res, err := c05Run(c)
 	if err != nil {
 		return res, err
 	}
 	res.Coq = "ABlsDec (" + res.Coq + ")"
 	return res, nil
+}
+
+// ---------------------------------------------------------------------------------------------
+// Every object the package produces, by constructor ("every object the package produces encodes to
+// bytes that decode back to an Equal object").
+var c05Recipes = []string{
+	"pk-generated", "pk-of-decoded-sk", "pk-aggregate2", "pk-aggregate-cancel", "pk-remove", "pk-remove-all",
+	"pk-identity-const", "pk-threshold-share", "pk-threshold-group", "pk-of-aggregated-sk",
+	"sk-generated", "sk-aggregated", "sk-threshold-share",
+	"sig-sign", "sig-pop", "sig-spock", "sig-aggregate2", "sig-aggregate-cancel", "sig-reconstruct",
+	"sig-threshold-stateful", "sig-invalid-const",
+}
+
+func c05Must[T any](v T, err error) T {
+	if err != nil {
+		panic("recipe: " + err.Error())
+	}
+	return v
+}
+
+// c05Produce builds the object of a recipe from a 32-byte seed.  Returns the decoder kind and the object.
+func c05Produce(recipe string, seed []byte) (kind string, obj any) {
+	rr := rand.New(rand.NewPCG(uint64(seed[0])<<8|uint64(seed[1]), 0x05))
+	gen := func() crypto.PrivateKey { return c05Must(crypto.GeneratePrivateKey(crypto.BLSBLS12381, rbytes(rr, 32+rr.IntN(40)))) }
+	neg := func(sk crypto.PrivateKey) crypto.PrivateKey {
+		k := new(big.Int).SetBytes(sk.Encode())
+		return blsSkFromInt(k.Sub(blsR, k))
+	}
+	h := crypto.NewExpandMsgXOFKMAC128("c05-produced")
+	msg := seed[:7]
+	a, b := gen(), gen()
+	switch recipe {
+	case "pk-generated":
+		return "pk", a.PublicKey()
+	case "pk-of-decoded-sk":
+		return "pk", c05Must(crypto.DecodePrivateKey(crypto.BLSBLS12381, a.Encode())).PublicKey()
+	case "pk-aggregate2":
+		return "pk", c05Must(crypto.AggregateBLSPublicKeys([]crypto.PublicKey{a.PublicKey(), b.PublicKey()}))
+	case "pk-aggregate-cancel":
+		return "pk", c05Must(crypto.AggregateBLSPublicKeys([]crypto.PublicKey{a.PublicKey(), neg(a).PublicKey()}))
+	case "pk-remove":
+		agg := c05Must(crypto.AggregateBLSPublicKeys([]crypto.PublicKey{a.PublicKey(), b.PublicKey()}))
+		return "pk", c05Must(crypto.RemoveBLSPublicKeys(agg, []crypto.PublicKey{b.PublicKey()}))
+	case "pk-remove-all":
+		agg := c05Must(crypto.AggregateBLSPublicKeys([]crypto.PublicKey{a.PublicKey(), b.PublicKey()}))
+		return "pk", c05Must(crypto.RemoveBLSPublicKeys(agg, []crypto.PublicKey{b.PublicKey(), a.PublicKey()}))
+	case "pk-identity-const":
+		return "pk", crypto.IdentityBLSPublicKey()
+	case "pk-of-aggregated-sk":
+		return "pk", c05Must(crypto.AggregateBLSPrivateKeys([]crypto.PrivateKey{a, b})).PublicKey()
+	case "sk-generated":
+		return "sk", a
+	case "sk-aggregated":
+		return "sk", c05Must(crypto.AggregateBLSPrivateKeys([]crypto.PrivateKey{a, b}))
+	case "sig-sign":
+		return "sig", c05Must(a.Sign(msg, h))
+	case "sig-pop":
+		return "sig", c05Must(crypto.BLSGeneratePOP(a))
+	case "sig-spock":
+		return "sig", c05Must(crypto.SPOCKProve(a, msg, h))
+	case "sig-aggregate2":
+		return "sig", c05Must(crypto.AggregateBLSSignatures([]crypto.Signature{c05Must(a.Sign(msg, h)), c05Must(b.Sign(msg, h))}))
+	case "sig-aggregate-cancel":
+		return "sig", c05Must(crypto.AggregateBLSSignatures([]crypto.Signature{c05Must(a.Sign(msg, h)), c05Must(neg(a).Sign(msg, h))}))
+	case "sig-invalid-const":
+		return "sig", crypto.BLSInvalidSignature()
+	}
+	// threshold outputs
+	n, t := 3+rr.IntN(3), 1+rr.IntN(2)
+	sks, pks, gpk, err := crypto.BLSThresholdKeyGen(n, t, seed)
+	if err != nil {
+		panic("recipe: " + err.Error())
+	}
+	switch recipe {
+	case "pk-threshold-share":
+		return "pk", pks[rr.IntN(n)]
+	case "pk-threshold-group":
+		return "pk", gpk
+	case "sk-threshold-share":
+		return "sk", sks[rr.IntN(n)]
+	}
+	tag := "c05-thr"
+	th := crypto.NewExpandMsgXOFKMAC128(tag)
+	var shares []crypto.Signature
+	var signers []int
+	for i := 0; i <= t; i++ {
+		shares = append(shares, c05Must(sks[i].Sign(msg, th)))
+		signers = append(signers, i)
+	}
+	switch recipe {
+	case "sig-reconstruct":
+		return "sig", c05Must(crypto.BLSReconstructThresholdSignature(n, t, shares, signers))
+	case "sig-threshold-stateful":
+		insp := c05Must(crypto.NewBLSThresholdSignatureInspector(gpk, pks, t, msg, tag))
+		for i := 0; i <= t; i++ {
+			if _, err := insp.TrustedAdd(i, shares[i]); err != nil {
+				panic("recipe: " + err.Error())
+			}
+		}
+		return "sig", c05Must(insp.ThresholdSignature())
+	}
+	panic("unknown recipe " + recipe)
+}
+
+// c05RoundTrip: encode -> decode -> Equal (both directions), stable re-encoding; returns "" or a complaint.
+func c05RoundTrip(kind string, obj any) (enc []byte, complaint string) {
+	switch kind {
+	case "pk":
+		pk := obj.(crypto.PublicKey)
+		enc = pk.Encode()
+		encc := pk.EncodeCompressed()
+		if !bytes.Equal(enc, encc) {
+			return enc, "Encode and EncodeCompressed of a BLS public key differ"
+		}
+		for _, dec := range []func(crypto.SigningAlgorithm, []byte) (crypto.PublicKey, error){crypto.DecodePublicKey, crypto.DecodePublicKeyCompressed} {
+			pk2, err := dec(crypto.BLSBLS12381, append([]byte{}, enc...))
+			if err != nil {
+				return enc, "produced public key does not decode: " + err.Error()
+			}
+			if !pk2.Equals(pk) || !pk.Equals(pk2) {
+				return enc, "decoded public key is not Equal to the produced one"
+			}
+			if !bytes.Equal(pk2.Encode(), enc) {
+				return enc, "decoded public key re-encodes differently"
+			}
+		}
+		if !bytes.Equal(pk.Encode(), enc) {
+			return enc, "Encode is not stable across calls"
+		}
+	case "sk":
+		sk := obj.(crypto.PrivateKey)
+		enc = sk.Encode()
+		sk2, err := crypto.DecodePrivateKey(crypto.BLSBLS12381, append([]byte{}, enc...))
+		if err != nil {
+			return enc, "produced private key does not decode: " + err.Error()
+		}
+		if !sk2.Equals(sk) || !sk.Equals(sk2) || !bytes.Equal(sk2.Encode(), enc) {
+			return enc, "decoded private key is not Equal to the produced one"
+		}
+		if !sk2.PublicKey().Equals(sk.PublicKey()) {
+			return enc, "decoded private key has a different public key"
+		}
+	case "sig":
+		enc = obj.(crypto.Signature)
+	}
+	return enc, ""
+}
+
+// ---------------------------------------------------------------------------------------------
+// The same 48 bytes through every place where the package parses a signature.  acc = the verdict of
+// the plain parser (AggregateBLSSignatures of one element).  Judged here: every aggregation /
+// reconstruction route accepts exactly when acc (with errInvalidSignature otherwise, at every position
+// of the list), and no verification route returns true or an error for a string that is not the
+// genuine signature.
+type c05RouteEnv struct {
+	sk        crypto.PrivateKey
+	pk        crypto.PublicKey
+	msg       []byte
+	h         hash.Hasher
+	good      crypto.Signature
+	tsks      []crypto.PrivateKey
+	tpks      []crypto.PublicKey
+	tgpk      crypto.PublicKey
+	tshares   []crypto.Signature
+	thrTag    string
+	identSig  []byte
+}
+
+var (
+	c05EnvOnce sync.Once
+	c05Env     c05RouteEnv
+)
+
+func c05Routes() *c05RouteEnv {
+	c05EnvOnce.Do(func() {
+		e := &c05Env
+		e.sk = blsSkFromInt(big.NewInt(0x0c05c05))
+		e.pk = e.sk.PublicKey()
+		e.msg = []byte("c05 routes")
+		e.thrTag = "c05-routes"
+		e.h = crypto.NewExpandMsgXOFKMAC128(e.thrTag)
+		e.good = c05Must(e.sk.Sign(e.msg, e.h))
+		var err error
+		e.tsks, e.tpks, e.tgpk, err = crypto.BLSThresholdKeyGen(3, 1, bytes.Repeat([]byte{0x5c}, 32))
+		if err != nil {
+			panic(err)
+		}
+		for _, k := range e.tsks {
+			e.tshares = append(e.tshares, c05Must(k.Sign(e.msg, e.h)))
+		}
+		e.identSig = make([]byte, 48)
+		e.identSig[0] = 0xC0
+	})
+	return &c05Env
+}
+
+func c05SigRoutes(b []byte, acc bool) string {
+	e := c05Routes()
+	orig := append([]byte{}, b...)
+	cp := func() crypto.Signature { return append([]byte{}, b...) }
+	g := func() crypto.Signature { return append([]byte{}, e.good...) }
+	// aggregation: every position
+	for name, list := range map[string][]crypto.Signature{
+		"first": {cp(), g()}, "last": {g(), cp()}, "middle": {g(), cp(), g()}, "twice": {cp(), cp()}, "after-identity": {e.identSig, cp()},
+	} {
+		_, err := crypto.AggregateBLSSignatures(list)
+		if (err == nil) != acc {
+			return fmt.Sprintf("AggregateBLSSignatures (string %s in the list) accepted=%v, alone accepted=%v", name, err == nil, acc)
+		}
+		if err != nil && !crypto.IsInvalidSignatureError(err) {
+			return fmt.Sprintf("AggregateBLSSignatures (string %s in the list): error %v is not errInvalidSignature", name, err)
+		}
+	}
+	if crypto.IsBLSSignatureIdentity(b) != bytes.Equal(b, e.identSig) {
+		return "IsBLSSignatureIdentity disagrees with the canonical identity encoding"
+	}
+	// threshold reconstruction, stateless: at both positions among the first t+1, and past them (not read)
+	if len(b) == crypto.SignatureLenBLSBLS12381 {
+		for pos := 0; pos < 2; pos++ {
+			sh := []crypto.Signature{append([]byte{}, e.tshares[0]...), append([]byte{}, e.tshares[1]...)}
+			sh[pos] = cp()
+			_, err := crypto.BLSReconstructThresholdSignature(3, 1, sh, []int{0, 1})
+			if (err == nil) != acc {
+				return fmt.Sprintf("BLSReconstructThresholdSignature (string at share %d) accepted=%v, plain parser accepted=%v", pos, err == nil, acc)
+			}
+			if err != nil && !crypto.IsInvalidSignatureError(err) {
+				return fmt.Sprintf("BLSReconstructThresholdSignature (string at share %d): error %v is not errInvalidSignature", pos, err)
+			}
+		}
+	}
+	// stateful: added unverified, reconstruction must fail with the documented class; verified add refuses it
+	insp := c05Must(crypto.NewBLSThresholdSignatureInspector(e.tgpk, e.tpks, 1, e.msg, e.thrTag))
+	isShare0 := bytes.Equal(b, e.tshares[0])
+	if v, err := insp.VerifyShare(0, cp()); err != nil || v != isShare0 {
+		return fmt.Sprintf("VerifyShare returned (%v, %v)", v, err)
+	}
+	if v, _, err := insp.VerifyAndAdd(0, cp()); err != nil || v != isShare0 {
+		return fmt.Sprintf("VerifyAndAdd returned valid=%v err=%v", v, err)
+	}
+	if !isShare0 {
+		if has, _ := insp.HasShare(0); has {
+			return "VerifyAndAdd retained a share that is not the signer's signature"
+		}
+		_, _ = insp.TrustedAdd(0, cp())
+		_, _ = insp.TrustedAdd(1, append([]byte{}, e.tshares[1]...))
+		for call := 0; call < 2; call++ {
+			out, err := insp.ThresholdSignature()
+			switch {
+			case err == nil:
+				return fmt.Sprintf("ThresholdSignature returned %x from a pool containing a string that is not the signer's share", []byte(out))
+			case !acc && !crypto.IsInvalidSignatureError(err):
+				return fmt.Sprintf("ThresholdSignature with a malformed share: %v is not errInvalidSignature", err)
+			case acc && !crypto.IsInvalidInputsError(err):
+				return fmt.Sprintf("ThresholdSignature with a well-formed wrong share: %v is not an invalid-input error", err)
+			}
+		}
+	}
+	// verification routes: false, no error
+	isGood := bytes.Equal(b, e.good)
+	type vr struct {
+		name string
+		f    func() (bool, error)
+	}
+	routes := []vr{
+		{"Verify", func() (bool, error) { return e.pk.Verify(cp(), e.msg, e.h) }},
+		{"VerifyBLSSignatureOneMessage", func() (bool, error) {
+			return crypto.VerifyBLSSignatureOneMessage([]crypto.PublicKey{e.pk}, cp(), e.msg, e.h)
+		}},
+		{"VerifyBLSSignatureManyMessages", func() (bool, error) {
+			return crypto.VerifyBLSSignatureManyMessages([]crypto.PublicKey{e.pk}, cp(), [][]byte{e.msg}, []hash.Hasher{e.h})
+		}},
+		{"SPOCKVerifyAgainstData", func() (bool, error) { return crypto.SPOCKVerifyAgainstData(e.pk, cp(), e.msg, e.h) }},
+		{"BatchVerifyBLSSignaturesOneMessage", func() (bool, error) {
+			v, err := crypto.BatchVerifyBLSSignaturesOneMessage([]crypto.PublicKey{e.pk, e.pk, e.pk}, []crypto.Signature{g(), cp(), g()}, e.msg, e.h)
+			if err == nil && (len(v) != 3 || !v[0] || !v[2]) {
+				return false, fmt.Errorf("genuine neighbours judged %v", v)
+			}
+			if err != nil {
+				return false, err
+			}
+			return v[1], nil
+		}},
+		{"VerifyThresholdSignature", func() (bool, error) { return insp.VerifyThresholdSignature(cp()) }},
+	}
+	for _, rt := range routes {
+		v, err := rt.f()
+		if err != nil {
+			return fmt.Sprintf("%s returned an error for a 48-byte-or-other string: %v", rt.name, err)
+		}
+		want := isGood && rt.name != "VerifyThresholdSignature"
+		if v != want {
+			return fmt.Sprintf("%s returned %v (plain parser accepted=%v, genuine=%v)", rt.name, v, acc, isGood)
+		}
+	}
+	if v, err := crypto.BLSVerifyPOP(e.pk, cp()); err != nil || v {
+		return fmt.Sprintf("BLSVerifyPOP returned (%v, %v)", v, err)
+	}
+	// SPoCK consistency of the string with itself: true needs a parsable string
+	if v, err := crypto.SPOCKVerify(e.pk, cp(), e.pk, cp()); err != nil || (v && !acc) {
+		return fmt.Sprintf("SPOCKVerify returned (%v, %v) on a string the plain parser judges accepted=%v", v, err, acc)
+	}
+	if !bytes.Equal(b, orig) {
+		return "input modified"
+	}
+	return ""
+}
+
+// an ECDSA key pair from GeneratePrivateKey: private key, raw and compressed public key each decode back
+// to an Equal object; the public-key encoding is then judged by the ECDSA decoder oracle
+func c05EcdsaProduced(c Case) (Result, error) {
+	var in c05In
+	if err := json.Unmarshal(c.Input, &in); err != nil {
+		return Result{}, err
+	}
+	parts := strings.Split(in.Recipe, ":")
+	curve, comp := parts[0], parts[1] == "true"
+	alg := c11Algo(curve)
+	var enc []byte
+	complaint := ""
+	if p, m := catch(func() {
+		sk, err := crypto.GeneratePrivateKey(alg, unhx(in.Bytes))
+		if err != nil {
+			complaint = "GeneratePrivateKey failed: " + err.Error()
+			return
+		}
+		sk2, err := crypto.DecodePrivateKey(alg, sk.Encode())
+		if err != nil || !sk2.Equals(sk) || !sk.Equals(sk2) || !bytes.Equal(sk2.Encode(), sk.Encode()) {
+			complaint = fmt.Sprintf("generated private key %x does not decode to an Equal key (%v)", sk.Encode(), err)
+			return
+		}
+		pk := sk.PublicKey()
+		raw, cmp := pk.Encode(), pk.EncodeCompressed()
+		p1, e1 := crypto.DecodePublicKey(alg, raw)
+		p2, e2 := crypto.DecodePublicKeyCompressed(alg, cmp)
+		if e1 != nil || e2 != nil || !p1.Equals(pk) || !pk.Equals(p1) || !p2.Equals(pk) || !pk.Equals(p2) || !p1.Equals(p2) ||
+			!bytes.Equal(p2.Encode(), raw) || !bytes.Equal(p1.EncodeCompressed(), cmp) || !sk2.PublicKey().Equals(pk) {
+			complaint = fmt.Sprintf("generated public key %x / %x does not decode to an Equal key (%v, %v)", raw, cmp, e1, e2)
+			return
+		}
+		enc = raw
+		if comp {
+			enc = cmp
+		}
+	}); p {
+		return Result{}, implViolation("ECDSA key generation / re-decoding panicked: %s", m)
+	}
+	if complaint != "" {
+		return Result{}, implViolation("%s (seed %s)", complaint, in.Bytes)
+	}
+	sub := mkcase("ecdsa-pub-produced", c11In{Op: "decpub", Curve: curve, Comp: comp, In: hx(enc)})
+	res, err := c05RunAll(sub)
+	res.Key = string(c.Input)
+	return res, err
 }
